@@ -18,13 +18,15 @@ namespace GuppyVerif.Overload
 /-- Guppy types of the fragment. `var i` is a quantified parameter of a variant. -/
 inductive Ty where
   | nat | int | float | bool
+  /-- `qubit` (no coercions, not copyable; ownership flags of parameters are not part of resolution) -/
+  | qubit
   | tup (ts : List Ty)
   | var (i : Nat)
   deriving Repr, Inhabited
 
 mutual
 def Ty.beq : Ty → Ty → Bool
-  | .nat, .nat | .int, .int | .float, .float | .bool, .bool => true
+  | .nat, .nat | .int, .int | .float, .float | .bool, .bool | .qubit, .qubit => true
   | .tup a, .tup b => Ty.beqList a b
   | .var i, .var j => i == j
   | _, _ => false
@@ -56,6 +58,17 @@ inductive Arg where
   | tup (es : List Arg)
   deriving Repr, Inhabited
 
+mutual
+/-- does the type contain `qubit` (such types are not copyable) -/
+def Ty.hasQubit : Ty → Bool
+  | .qubit => true
+  | .tup ts => Ty.hasQubitList ts
+  | _ => false
+def Ty.hasQubitList : List Ty → Bool
+  | [] => false
+  | t :: r => Ty.hasQubit t || Ty.hasQubitList r
+end
+
 abbrev Subst := List (Nat × Ty)
 
 def Subst.get (σ : Subst) (i : Nat) : Option Ty := (σ.find? (·.1 == i)).map (·.2)
@@ -79,9 +92,12 @@ mutual
 def matchTy (σ : Subst) : Ty → Ty → Option Subst
   | .var i, act => match σ.get i with
     | some t => if t == act then some σ else none
-    | none => some ((i, act) :: σ)
+    | none =>
+      -- quantified parameters of the generated variants are copyable and droppable
+      -- (`guppy.type_var` defaults): a qubit-containing type is no instance (`check_inst`)
+      if act.hasQubit then none else some ((i, act) :: σ)
   | .tup ps, .tup as => matchList σ ps as
-  | .nat, .nat | .int, .int | .float, .float | .bool, .bool => some σ
+  | .nat, .nat | .int, .int | .float, .float | .bool, .bool | .qubit, .qubit => some σ
   | _, _ => none
 def matchList (σ : Subst) : List Ty → List Ty → Option Subst
   | [], [] => some σ
@@ -176,22 +192,51 @@ def checkElems (σ : Subst) : List Ty → List Arg → Option Subst × List Arg
   | _, es => (some σ, es)
 end
 
-/-- a variant: parameter types and result type (`FunctionType`) -/
-structure Variant where
+/-- a plain variant: parameter types, per-position `@comptime` flags (missing = not comptime)
+    and result type (`FunctionType`) -/
+structure Sig where
   params : List Ty
+  comptime : List Bool := []
   ret : Ty
   deriving Repr, Inhabited
 
-/-- `type_check_args`: arguments left to right under one growing substitution.  The
-    top-level list is not mutated (a new list is built) but the argument objects are. -/
-def checkArgs (σ : Subst) : List Ty → List Arg → Option Subst × List Arg
-  | p :: ps, a :: as =>
+/-- What can be listed in `@guppy.overload(...)`. -/
+inductive Variant where
+  /-- a declared / defined function -/
+  | plain (s : Sig)
+  /-- another overloaded function (its own `ty` is a placeholder; its `check_call` /
+      `synthesize_call` run the same loop over its variants) -/
+  | nested (ss : List Sig)
+  /-- a custom function with its own call checker and no declared signature; the one used in
+      the tie accepts any number of arguments that synthesize to exactly `int` and returns
+      `int` (in checking position the expected type must be `int`: the widening that
+      `check_type_against` attempts on the checker's untyped result node raises) -/
+  | allInts
+  deriving Repr, Inhabited
+
+/-- the type a literal argument gets under the hint `e` (`python_value_to_guppy_type`);
+    `none` for non-literals -/
+def Arg.constTy? (e : Ty) : Arg → Option Ty
+  | .intLit neg => some (if e == .nat && !neg then .nat else .int)
+  | .floatLit => some .float
+  | .boolLit => some .bool
+  | _ => none
+
+/-- `type_check_args`: arguments left to right under one growing substitution; a
+    `@comptime` parameter additionally needs the *checked* argument to be a constant
+    (`check_comptime_arg`: a literal that was not wrapped in a coercion), else
+    `ComptimeUnknownError` — a plain `GuppyError`, not a type error.  The top-level list
+    is not mutated (a new list is built) but the argument objects are. -/
+def checkArgs (σ : Subst) : List Ty → List Bool → List Arg → Option Subst × List Arg
+  | p :: ps, cs, a :: as =>
     match checkArg σ p a with
     | (some σ', a') =>
-      let (r, as') := checkArgs σ' ps as
-      (r, a' :: as')
+      if cs.headD false && !(a.constTy? (p.subst σ) == some (p.subst σ')) then (none, a' :: as)
+      else
+        let (r, as') := checkArgs σ' ps cs.tail as
+        (r, a' :: as')
     | (none, a') => (none, a' :: as)
-  | _, as => (some σ, as)
+  | _, _, as => (some σ, as)
 
 mutual
 def Ty.closed : Ty → Bool
@@ -203,30 +248,66 @@ def Ty.closedList : List Ty → Bool
   | t :: r => Ty.closed t && Ty.closedList r
 end
 
-/-- What a successful attempt hands back: the result type and the types of the checked
-    arguments it returns (`new_args`, each annotated with the instantiated parameter type). -/
+/-- What a successful attempt hands back: for a nested overloaded variant which of its own
+    variants was taken; the result type; the types of the checked arguments it returns
+    (`new_args`, each annotated with the instantiated parameter type). -/
 structure Outcome where
+  inner : Option Nat := none
   ret : Ty
   argTys : List Ty
   deriving Repr, Inhabited
 
-/-- One attempt: `defn.synthesize_call(args, …)` (`exp = none`) or
+/-- One attempt on a plain variant: `defn.synthesize_call(args, …)` (`exp = none`) or
     `defn.check_call(args, ty, …)` (`exp = some ty`).  Outcome on success, and the argument
     objects as left behind. -/
-def attempt (v : Variant) (args : List Arg) (exp : Option Ty) : Option Outcome × List Arg :=
+def attemptSig (v : Sig) (args : List Arg) (exp : Option Ty) : Option Outcome × List Arg :=
   -- `check_num_args`
   if v.params.length != args.length then (none, args)
   else
-    match checkArgs [] v.params args with
+    match checkArgs [] v.params v.comptime args with
     | (none, args') => (none, args')
     | (some σ, args') =>
       let out := v.ret.subst σ
-      let res : Outcome := ⟨out, Ty.substList σ v.params⟩
+      let res : Outcome := { ret := out, argTys := Ty.substList σ v.params }
       -- all variables of the result must have been inferred
       if !out.closed then (none, args')
       else match exp with
         | none => (some res, args')
         | some e => if e == out then (some res, args') else (none, args')
+
+/-- the resolution loop of a nested overloaded function over its (plain) variants -/
+def resolveSigs (ss : List Sig) (args : List Arg) (exp : Option Ty) : Option (Nat × Outcome) :=
+  go ss 0
+where
+  go : List Sig → Nat → Option (Nat × Outcome)
+    | [], _ => none
+    | s :: rest, i =>
+      match attemptSig s args exp with
+      | (some o, _) => some (i, o)
+      | (none, _) => go rest (i + 1)
+
+def allIntsOk : List Arg → Bool
+  | [] => true
+  | a :: as => (synthArg a).1 == Ty.int && allIntsOk as
+
+/-- One attempt on any variant.  Whatever diagnostic the variant's checker raises
+    (`GuppyTypeError`, `ComptimeUnknownError`, the inner `OverloadNoMatchError`, …) is a
+    `GuppyError` and just means "this variant does not accept". -/
+def attempt (v : Variant) (args : List Arg) (exp : Option Ty) : Option Outcome × List Arg :=
+  match v with
+  | .plain s => attemptSig s args exp
+  | .nested ss =>
+    match resolveSigs ss args exp with
+    | some (j, o) => (some { o with inner := some j }, args)
+    | none => (none, args)
+  | .allInts =>
+    if allIntsOk args then
+      match exp with
+      | none => (some { ret := .int, argTys := [] }, (synthArgs args).2)
+      | some e =>
+        if e == Ty.int then (some { ret := e, argTys := [] }, (synthArgs args).2)
+        else (none, (synthArgs args).2)
+    else (none, (synthArgs args).2)
 
 /-- Does the variant accept the call (a direct call in a fresh program)? -/
 def accepts (v : Variant) (args : List Arg) (exp : Option Ty) : Bool :=
